@@ -2,11 +2,45 @@
 
 package stat
 
-import "sync/atomic"
+import (
+	"sync/atomic"
+	"time"
+)
 
 // VerifSetCpuUsage lets the C02 correspondence harness choose the value the next stat.CpuUsage()
 // calls return (the background sampler may overwrite it every 250ms; the harness detects that).
 // Injected with `go test -overlay`; nothing is written to the repository.
 func VerifSetCpuUsage(v int64) {
 	atomic.StoreInt64(&cpuUsage, v)
+}
+
+// VerifSampleTicks exercises the REAL sampler closure of init(): it stores prev into cpuUsage, makes sure no
+// iteration of the sampler that loaded an older value is still about to store (the value has to stay put for a
+// moment), and then records the next n values the sampler stores. Every recorded value is therefore
+// int64(float64(previous)*beta + float64(RefreshCpu())*(1-beta)) computed by the code under test from the
+// previous element (prev first). It waits for the 250 ms ticker of init(), at most timeout in all; fewer than
+// n values are returned when the time is up or when a tick leaves the value unchanged.
+func VerifSampleTicks(prev int64, n int, timeout time.Duration) []int64 {
+	deadline := time.Now().Add(timeout)
+	for {
+		atomic.StoreInt64(&cpuUsage, prev)
+		time.Sleep(20 * time.Millisecond)
+		if atomic.LoadInt64(&cpuUsage) == prev {
+			break
+		}
+		if time.Now().After(deadline) {
+			return nil
+		}
+	}
+	var out []int64
+	last := prev
+	for len(out) < n && time.Now().Before(deadline) {
+		if v := atomic.LoadInt64(&cpuUsage); v != last {
+			out = append(out, v)
+			last = v
+			continue
+		}
+		time.Sleep(time.Millisecond)
+	}
+	return out
 }
